@@ -10,6 +10,7 @@
 #![allow(dead_code, clippy::type_complexity)]
 use epserde::deser::DeserializeInner;
 use sux::dict::elias_fano::{EfDict, EfSeq, EfSeqDict};
+use sux::func::shard_edge::{Mwhc3NoShards, Mwhc3Shards};
 use sux::prelude::*;
 
 type Eps<'a, T> = <T as DeserializeInner>::DeserType<'a>;
@@ -155,6 +156,16 @@ pub fn w_vfunc<'a>(
     // the unaligned queries exist on every bit-field backend, loaded ones included
     let _: (usize, usize) = (b.get_unaligned(1usize), d.get_unaligned(2usize));
     (a.get(0usize), b.get(1usize), c.get("x"), d.get(2usize), e.get(3usize))
+}
+
+/// Functions and filters over the optional MWHC logics (feature `mwhc`).
+pub fn w_vfunc_mwhc<'a>(
+    a: &Eps<'a, VFunc<usize, usize, BitFieldVec<usize>, [u64; 2], Mwhc3Shards>>,
+    b: &Eps<'a, VFunc<usize, u8, Box<[u8]>, [u64; 2], Mwhc3NoShards>>,
+    c: &Eps<'a, VFilter<u8, VFunc<usize, u8, Box<[u8]>, [u64; 2], Mwhc3NoShards>>>,
+    d: &Eps<'a, VFilter<usize, VFunc<str, usize, BitFieldVec<usize>, [u64; 2], Mwhc3Shards>>>,
+) -> (usize, u8, bool, bool, usize) {
+    (a.get(0usize), b.get(1usize), c.contains(2usize), d.contains("x"), a.len() + b.len() + c.len() + d.len())
 }
 
 pub fn w_vfilter<'a>(
